@@ -100,6 +100,16 @@ def direct(run):
         return
     run.coverage["impl_sequences_checked_against_oracle"] = js["tried"]
     _report(run, js)
+    # the same with trace-level logging on (the arguments of the crate's log lines are then evaluated)
+    rc, js, out, err = vlib.harness(["tracker-search", "--seed", run.seed + 3, "--n", max(1000, n // 4)], timeout=900, trace=True)
+    if rc != 0 or js is None:
+        run.violation("tracker-trace-logging", "with trace-level logging enabled the tracker run dies (status %s): %s" % (rc, (err or out)[-200:]),
+                      {"kind": "impl-input", "input": {"command": "VERIF_TRACE=1 pmh-harness tracker-search --seed %d" % (run.seed + 3)}, "observed": rc})
+        return
+    for f in js["found"][:1]:
+        f = dict(f)
+        f["why"] = "with trace-level logging enabled: " + f.get("why", "")
+        _report(run, {"found": [f], "tried": js["tried"]})
 
 
 def search(run):
